@@ -167,9 +167,28 @@ def _natural_scale(mdl, key, case):
     horizon = G.horizon(case) or 1.0 / mdl.k
     speed = mdl.noload_out * r
     torque = mdl.Tmax / max(r / mdl.cum_ratio(0), 1e-300)       # stall torque referred to element i (no losses)
-    return {'angular position': speed * horizon, 'angular speed': speed, 'angular acceleration': speed * mdl.k,
+    base = {'angular position': speed * horizon, 'angular speed': speed, 'angular acceleration': speed * mdl.k,
             'torque': torque, 'driving torque': torque, 'load torque': torque, 'pwm': 1.0,
-            'electric current': mdl.imax or 1.0}.get(var, 0.0)
+            'electric current': mdl.imax or 1.0}
+    if var in base:
+        return base[var]
+    # tooth force and stresses at the stall torque of this element (orders of magnitude are enough for a floor)
+    sp = mdl.elements[int(i)]
+    if sp.get('module') is not None and sp.get('n_teeth'):
+        d = sp['n_teeth'] * U.si('Length', *sp['module'])
+    elif sp.get('ref_diameter') is not None:
+        d = U.si('Length', *sp['ref_diameter'])
+    else:
+        return 0.0
+    force = torque / (d / 2)
+    if var == 'tangential force':
+        return force
+    b_ = U.si('Length', *sp['face_width']) if sp.get('face_width') is not None else d
+    m_ = U.si('Length', *sp['module']) if sp.get('module') is not None else d
+    if var == 'bending stress':
+        return force / (m_ * b_ * 0.3)
+    E = U.si('Stress', *sp['E']) if sp.get('E') is not None else 2e11
+    return 0.26 * (4 * force / (b_ * 0.32) * (2 / d) * E / 2) ** 0.5
 
 
 def check(case) -> Result:
